@@ -203,6 +203,10 @@ def execute(case, ctx):
         a = _call(A, op)
         b = _call(B, op)
         hit = A.cache.stats['hit'] > hits0
+        from ..history import strings_too_big
+        if op['op'] == 'eval' and strings_too_big(A.spaces[op['space']]):
+            ctx.stats['stopped_string_growth'] += 1
+            break
         if A.tainted:
             ctx.stats['stopped_after_address_text'] += 1
             break           # a program stringified a function: the two worlds now differ by memory addresses only
